@@ -44,6 +44,10 @@ chk("C04", "stateless choice-DFS over documents with every string instrumented +
     "Every string (keys and values) of every generated document (<=2/3 deviations), of base documents incl. alias-shared subtrees and 11-entry maps carries a unique marker with a reference and both escape spellings; the real Pipeline.Interpolate must equal the single-pass expansion mapped over the JSON tree before the call (all but signatures, order included); a failing expansion is injected at every position in turn and must be reported; every order / renamed-key-revisited answer of the library's map loops is explored (maps <=3 entries fully, bounded deviations beyond) and each execution must give the expected result.",
     "Single-string expansion delegated to buildkite/interpolate; unique markers avoid name collisions; plugin sources are ./paths.", "DESIGN.md §3 C04")
 
+chk("C12", "exhaustive enumeration of token strings x positions x permutations on the real matrix interpolation vs. hand-written single-pass scanner, map-iteration orders via seam",
+    "Every concatenation of <=3/4 pieces over a 24-piece token/near-miss alphabet at each of 19 positions (11 in scope, 8 out of scope) of a command step, for 5 permutations (token-shaped values, dotted/dashed/dot-leading names): the real InterpolateMatrixPermutation must equal a hand-written single-pass scanner mapped over the in-scope strings of the step's JSON; unknown dimension in scope => error, out-of-scope strings unchanged, empty permutation changes nothing; the library's map loops are explored in every order within the deviation bound.",
+    "Cache strings are don't-care; plugin sources are ./paths.", "DESIGN.md §3 C12")
+
 ALL = [f"C{i:02d}" for i in range(1,20)]
 NA_REASON = {}
 man = dict(version=1, setup_cmd="./setup.sh",
